@@ -117,7 +117,7 @@ func (dec *Decoder) readStringAsSafeBytes(utf16Length int) []byte {
 
 // ReadStringAsBytes reads string as bytes.
 func (dec *Decoder) ReadStringAsBytes() (data []byte) {
-	data = dec.readStringAsSafeBytes(dec.ReadInt())
+	data = dec.readStringAsSafeBytes(dec.ReadCount())
 	dec.Skip()
 	return
 }
@@ -143,7 +143,7 @@ func (dec *Decoder) readSafeString(utf16Length int) (s string) {
 
 // ReadUnsafeString reads unsafe string.
 func (dec *Decoder) ReadUnsafeString() (s string) {
-	s = dec.readUnsafeString(dec.ReadInt())
+	s = dec.readUnsafeString(dec.ReadCount())
 	if dec.head == dec.tail && dec.reader != nil {
 		// Skip is about to refill the window that s points into.
 		s = string(append([]byte(nil), s...))
@@ -154,7 +154,7 @@ func (dec *Decoder) ReadUnsafeString() (s string) {
 
 // ReadSafeString reads safe string.
 func (dec *Decoder) ReadSafeString() (s string) {
-	s = dec.readSafeString(dec.ReadInt())
+	s = dec.readSafeString(dec.ReadCount())
 	dec.Skip()
 	return
 }
